@@ -6,8 +6,10 @@ package main
 
 import (
 	"context"
+	"errors"
 	"fmt"
 	"math/rand"
+	"strings"
 	"sync"
 
 	builderapi "github.com/attestantio/go-builder-client/api"
@@ -32,6 +34,33 @@ func rnd32(r *rand.Rand) (out phase0.Root) { r.Read(out[:]); return }
 func dom(name string, epoch uint64) phase0.Domain {
 	return harness.DomainFor(harness.DomainTypes[name], epoch, false)
 }
+
+// flakyDomains is a domain provider whose genesis-domain or per-epoch lookups fail.
+type flakyDomains struct {
+	harness.RecDomains
+	failGenesis, failEpoch bool
+}
+
+func (f flakyDomains) Domain(ctx context.Context, t phase0.DomainType, e phase0.Epoch) (phase0.Domain, error) {
+	if f.failEpoch {
+		return phase0.Domain{}, errors.New("scripted domain failure")
+	}
+	return f.RecDomains.Domain(ctx, t, e)
+}
+
+func (f flakyDomains) GenesisDomain(ctx context.Context, t phase0.DomainType) (phase0.Domain, error) {
+	if f.failGenesis {
+		return phase0.Domain{}, errors.New("scripted genesis domain failure")
+	}
+	return f.RecDomains.GenesisDomain(ctx, t)
+}
+
+// signers whose domain provider fails one kind of lookup: a request then ends in an error or in a signature that
+// verifies like any other, never in a signature under some other domain
+var sNoGenesis, sNoEpoch *signer.Service
+
+// refusers are multi-signer accounts whose remote signer returns no signature (e.g. slashing protection)
+var refusers []harness.Acct
 
 type caseRes struct {
 	bad    []string
@@ -86,6 +115,24 @@ func run(c *harness.Ctx) {
 	if err != nil {
 		c.Inconclusive("signer.New: " + err.Error())
 		return
+	}
+	for _, fd := range []flakyDomains{{failGenesis: true}, {failEpoch: true}} {
+		fs, err := signer.New(ctx, signer.WithLogLevel(zerolog.Disabled), signer.WithMonitor(nullmetrics.New()), signer.WithClientMonitor(nullmetrics.New()), signer.WithSpecProvider(harness.NewSpec(spe, nil)), signer.WithDomainProvider(fd))
+		if err != nil {
+			c.Inconclusive("signer.New: " + err.Error())
+			return
+		}
+		if fd.failGenesis {
+			sNoGenesis = fs
+		} else {
+			sNoEpoch = fs
+		}
+	}
+	refusers = nil
+	for i := 0; i < 3; i++ {
+		a := harness.NewAcct(harness.KindMulti, "D", fmt.Sprintf("refuser%d", i), 40+i, phase0.ValidatorIndex(40+i), nil)
+		a.SetFault(harness.FaultNoSig)
+		refusers = append(refusers, a)
 	}
 	var plain, prot, multi []harness.Acct
 	for i := 0; i < 6; i++ {
@@ -239,11 +286,38 @@ func oneRequest(ctx context.Context, s *signer.Service, r *rand.Rand, spe uint64
 			check(a, sig, harness.RefAttestationData(slot, ci, br[:], se, sr[:], te, tr[:]), d, fmt.Sprintf("%T", a))
 		} else {
 			as, pat := genBatch(r, plain, multi)
+			refused := map[int]bool{}
+			if strings.Trim(pat, "P") != "" && r.Intn(3) == 0 {
+				// some accounts of a dirk-like batch are refused a signature by their remote signer
+				for i := range as {
+					if r.Intn(3) == 0 {
+						as[i] = refusers[r.Intn(len(refusers))]
+						refused[i] = true
+					}
+				}
+				pat += fmt.Sprintf("+refused%d", len(refused))
+			}
 			cis := make([]phase0.CommitteeIndex, len(as))
 			for i := range cis {
 				cis[i] = phase0.CommitteeIndex(r.Intn(64))
 			}
-			sigs, err := s.SignBeaconAttestations(ctx, toAccounts(as), phase0.Slot(slot), cis, br, phase0.Epoch(se), sr, phase0.Epoch(te), tr)
+			sgn := s
+			if r.Intn(12) == 0 {
+				sgn = sNoEpoch // the fork domain cannot be obtained
+				pat += "+no-domain"
+			}
+			sigs, err := sgn.SignBeaconAttestations(ctx, toAccounts(as), phase0.Slot(slot), cis, br, phase0.Epoch(se), sr, phase0.Epoch(te), tr)
+			if sgn != s {
+				res.fp = fmt.Sprintf("%s|%s", kind, pat)
+				if err == nil {
+					for i, a := range as {
+						if !refused[i] && sigs[i] != (phase0.BLSSignature{}) {
+							check(a, sigs[i], harness.RefAttestationData(slot, uint64(cis[i]), br[:], se, sr[:], te, tr[:]), d, "domain-lookup-failed")
+						}
+					}
+				}
+				break
+			}
 			res.sample = map[string]any{"kind": kind, "pattern": pat, "slot": slot, "committees": fmt.Sprint(cis), "err": fmt.Sprint(err)}
 			res.fp = fmt.Sprintf("%s|%s", kind, pat)
 			if err != nil || len(sigs) != len(as) {
@@ -251,6 +325,13 @@ func oneRequest(ctx context.Context, s *signer.Service, r *rand.Rand, spe uint64
 				break
 			}
 			for i, a := range as {
+				if refused[i] {
+					res.nsigs++
+					if sigs[i] != (phase0.BLSSignature{}) {
+						res.bad = append(res.bad, "signature-for-refused-account:"+kind)
+					}
+					continue
+				}
 				check(a, sigs[i], harness.RefAttestationData(slot, uint64(cis[i]), br[:], se, sr[:], te, tr[:]), d, "position")
 			}
 		}
@@ -371,9 +452,16 @@ func oneRequest(ctx context.Context, s *signer.Service, r *rand.Rand, spe uint64
 			r.Read(pk[:]) // the message names another key; still signed by the account
 		}
 		reg := &builderapi.VersionedValidatorRegistration{Version: builderspec.BuilderVersionV1, V1: &builderv1.ValidatorRegistration{FeeRecipient: fr, GasLimit: gl, Timestamp: time.Unix(ts, 0), Pubkey: pk}}
-		sig, err := s.SignValidatorRegistration(ctx, a, reg)
-		res.sample = map[string]any{"kind": kind, "account": a.FullName(), "gas_limit": gl, "timestamp": ts, "err": fmt.Sprint(err)}
-		res.fp = fmt.Sprintf("%s|%T", kind, a)
+		sgn := s
+		if r.Intn(6) == 0 {
+			sgn = sNoGenesis // the genesis domain cannot be obtained
+		}
+		sig, err := sgn.SignValidatorRegistration(ctx, a, reg)
+		res.sample = map[string]any{"kind": kind, "account": a.FullName(), "gas_limit": gl, "timestamp": ts, "err": fmt.Sprint(err), "genesis_domain_lookup_fails": sgn != s}
+		res.fp = fmt.Sprintf("%s|%T|%v", kind, a, sgn != s)
+		if sgn != s && err != nil {
+			break // refused: fine
+		}
 		if err != nil {
 			res.bad = append(res.bad, "unexpected-error:"+kind)
 			break
@@ -388,7 +476,7 @@ func main() {
 	harness.Main(&harness.Spec{
 		Property:    "C06",
 		Level:       "exploration",
-		Rule:        "random requests of the ten signing kinds (random messages, slots across epoch/domain boundaries incl. last slot of an epoch, batches of 1-12 accounts in random order, wallet-like all-plain or dirk-like ordinary/distributed multi-signer mixtures, single requests over plain/protecting/multi/distributed accounts) issued concurrently by 8 goroutines against one long-lived signer per batch; every returned signature BLS-verified against an independently merkleised signing root with the domain of the expected (type, epoch); distinct = (kind, account-kind pattern of the batch | account kind and epoch class)",
+		Rule:        "random requests of the ten signing kinds (random messages, slots across epoch/domain boundaries incl. last slot of an epoch, batches of 1-12 accounts in random order, wallet-like all-plain or dirk-like ordinary/distributed multi-signer mixtures, single requests over plain/protecting/multi/distributed accounts) issued concurrently by 8 goroutines against one long-lived signer per batch; every returned signature BLS-verified against an independently merkleised signing root with the domain of the expected (type, epoch); in some dirk-like attestation batches a third of the accounts are refused a signature by their signer (their entries must be zero), and some requests go to signers whose genesis-domain or fork-domain lookup fails (error, or a signature that verifies as usual); distinct = (kind, account-kind pattern of the batch | account kind and epoch class)",
 		Batches:     func(string) int { return 3 },
 		Parallel:    3,
 		Run:         run,
